@@ -201,6 +201,18 @@ def runHolds (caseToks obsToks : List String) : String :=
     match parseSlot caseToks, (obsToks.takeWhile (· != "|")).mapM parseSlotEv with
     | some (l, _), some evs => boolStr (obsToks.contains "|" && C17Slot.holds l evs)
     | _, _ => "false"
+  | ["free", "slot", "lim", l, "thr", _, "it", _] =>
+    -- counter stress: never more than `limit` holders; afterwards not more than `limit` slots are free
+    match l.toNat?, obsToks with
+    | some l, ["max", m, "fin", f] =>
+      match m.toNat?, f.toNat? with
+      | some m, some f => boolStr (decide (m ≤ l) && decide (f ≤ l))
+      | _, _ => "false"
+    | _, _ => "false"
+  | ["free", "race", "lim", l, "it", _] =>
+    match l.toNat?, obsToks with
+    | some l, ["max", m] => match m.toNat? with | some m => boolStr (decide (m ≤ l)) | none => "false"
+    | _, _ => "false"
   | "free" :: _ =>
     match parseFree caseToks, parseFreeObs obsToks with
     | some c, some (a, r, m, f, d) => boolStr (holdsFree c.proto.zeroUnl c.limit c.pre c.n a r m f d)
